@@ -2080,6 +2080,12 @@ void Interpreter::assign_array_element_float(const std::string &name,
         }
     }
 
+    // const配列への代入チェック (same test as on the integral path,
+    // CommonOperations::check_const_assignment)
+    if (var->is_const && var->is_assigned) {
+        throw std::runtime_error("Cannot assign to const variable: " + name);
+    }
+
     // 境界チェック
     int idx = static_cast<int>(index);
     if (idx < 0 || idx >= var->array_size) {
